@@ -211,6 +211,8 @@ def run(ctx):
     worst = max(worst, enumerate_faults(eng, rep, bl, ['W1', 'W2'] if not q else ['W1'], ks[::3] if q else ks[::2], (0, 8)))
     te = topos.tee(maxseq=60, conn_ticks=5)
     nonrequired_death(eng, rep, te, 'B', 'A', ks[::2] if q else ks)
+    # the same behind a publisher that is an application blocked in ONE send() call (timeout = None) all the while
+    nonrequired_death(eng, rep, topos.blocking(topos.tee(maxseq=60, conn_ticks=5), ['S']), 'B', 'A', ks[::3] if q else ks[::2])
     rq = topos.required2(maxseq=60, conn_ticks=5)
     required_missing(eng, rep, rq, 'S', 'K', ks[::3] if q else ks)
     # the same with another (non-required) consumer that keeps requesting while the required one is gone
